@@ -7,7 +7,7 @@ from sa.loader import Program
 from sa.__main__ import run_property, PROPS
 from sa.report import load_known
 
-srcs = sorted(glob.glob("/tmp/refactor_out/g*/r*.diff")) if len(sys.argv) < 2 else sorted(glob.glob(sys.argv[1]))
+srcs = sorted(glob.glob("/verif/seeded/refactors/g*_r*.diff")) if len(sys.argv) < 2 else sorted(glob.glob(sys.argv[1]))
 WT = "/tmp/refactor_eval_wt"
 subprocess.run(["git", "-C", "/repo", "worktree", "remove", "--force", WT], capture_output=True)
 subprocess.check_call(["git", "-C", "/repo", "worktree", "add", "-q", "--detach", WT, "HEAD"])
@@ -43,4 +43,5 @@ for p, st, alarms in rows:
         for i in inc[:3]:
             print("        incomplete:", i)
 print("%d patches, %d with alarms" % (len(rows), n_al))
-json.dump([{"patch": p, "status": st, "alarms": [{"property": a[0], "exit": a[1], "detail": a[2], "incomplete": a[3]} for a in al]} for p, st, al in rows], open("/tmp/refactor_eval.json", "w"), indent=1, default=str)
+OUT = "/verif/seeded/refactors/EVAL.json" if len(sys.argv) < 2 else "/tmp/refactor_eval.json"
+json.dump([{"patch": p, "status": st, "alarms": [{"property": a[0], "exit": a[1], "detail": a[2], "incomplete": a[3]} for a in al]} for p, st, al in rows], open(OUT, "w"), indent=1, default=str)
